@@ -78,6 +78,107 @@ func (x *Exec) bindResults(names map[string]Val, sig *types.Signature, res Val) 
 	names["result"] = res.Fs[0]
 }
 
+// aliasRenamed: contracts name parameters and named results.  When the code renames one of them, exactly one signature name is
+// not mentioned by the contract and exactly one identifier of the contract resolves to nothing: the old name then denotes the
+// renamed parameter (recorded as a note).  Anything less clear-cut is left alone and fails as an unknown identifier.
+func (x *Exec) aliasRenamed(con *Contract, sig *types.Signature, names map[string]Val) {
+	if con == nil || sig == nil {
+		return
+	}
+	if !con.aliasDone {
+		con.aliasDone = true
+		con.alias = map[string]string{}
+		var sigNames []string
+		add := func(v *types.Var) {
+			if v != nil && v.Name() != "" && v.Name() != "_" {
+				sigNames = append(sigNames, v.Name())
+			}
+		}
+		add(sig.Recv())
+		for i := 0; i < sig.Params().Len(); i++ {
+			add(sig.Params().At(i))
+		}
+		for i := 0; i < sig.Results().Len(); i++ {
+			add(sig.Results().At(i))
+		}
+		inSig := map[string]bool{}
+		var unmentioned []string
+		for _, n := range sigNames {
+			inSig[n] = true
+			if !con.mentions(n) {
+				unmentioned = append(unmentioned, n)
+			}
+		}
+		if len(unmentioned) == 1 {
+			locals := map[string]bool{}
+			if fn := x.eng.findFunc(con.Key); fn != nil {
+				for _, b := range fn.Blocks {
+					for _, in := range b.Instrs {
+						switch v := in.(type) {
+						case *ssa.DebugRef:
+							if id, ok := v.Expr.(*ast.Ident); ok {
+								locals[id.Name] = true
+							}
+						case *ssa.Alloc:
+							locals[v.Comment] = true
+						case *ssa.Phi:
+							locals[v.Comment] = true
+						}
+					}
+				}
+			}
+			tp := x.eng.typesPkg(con.Pkg)
+			var missing []string
+			for n := range con.freeIdents(true) {
+				if inSig[n] || locals[n] || specBuiltinNames[n] || strings.HasPrefix(n, "__") || strings.HasPrefix(n, "result") || strings.HasPrefix(n, "arg") {
+					continue
+				}
+				switch n {
+				case "nil", "true", "false", "recv", "all", "nothing", "_":
+					continue
+				}
+				isLet := false
+				for _, l := range con.Lets {
+					if l.Name == n {
+						isLet = true
+					}
+				}
+				for _, pi := range con.Pre {
+					if pi.Let == n {
+						isLet = true
+					}
+				}
+				for _, g := range con.Ghost {
+					if g.Name == n {
+						isLet = true
+					}
+				}
+				if isLet || types.Universe.Lookup(n) != nil || x.eng.resolvePkgName(con.Pkg, n) != "" {
+					continue
+				}
+				if tp != nil && tp.Scope().Lookup(n) != nil {
+					continue
+				}
+				if x.eng.cs.Specs[con.Pkg+"."+n] != nil || x.eng.cs.Specs["."+n] != nil {
+					continue
+				}
+				missing = append(missing, n)
+			}
+			if len(missing) == 1 {
+				con.alias[missing[0]] = unmentioned[0]
+			}
+		}
+	}
+	for old, cur := range con.alias {
+		if v, ok := names[cur]; ok {
+			if _, taken := names[old]; !taken {
+				names[old] = v
+				x.note(fmt.Sprintf("contract of %s: the name %q is not in the signature any more; it is taken to be the renamed parameter/result %q (the only one the contract does not mention)", con.Key, old, cur))
+			}
+		}
+	}
+}
+
 func (x *Exec) evalLets(env *SpecEnv, con *Contract) {
 	for _, l := range con.Lets {
 		env.names[l.Name] = env.eval(l.C.Expr)
@@ -96,7 +197,9 @@ func (x *Exec) withSpecErr(where string, f func()) {
 	defer func() {
 		if e := recover(); e != nil {
 			if se, ok := e.(specErr); ok {
-				panic(oos("%s: %s", where, se.msg))
+				o := oos("%s: %s", where, se.msg)
+				o.rebindable = se.rebindable
+				panic(o)
 			}
 			panic(e)
 		}
@@ -501,6 +604,7 @@ func (x *Exec) applyContract(fr *Frame, st *State, in ssa.Instruction, con *Cont
 	retain := true
 	x.withSpecErr(con.Where, func() {
 		names := x.bindArgs(sig, args)
+		x.aliasRenamed(con, sig, names)
 		env := &SpecEnv{x: x, fr: fr, st: st, old: st, names: names, pkg: con.Pkg, depth: 1}
 		i := 0
 		for _, p := range con.Pre {
@@ -593,6 +697,7 @@ func (x *Exec) applyContract(fr *Frame, st *State, in ssa.Instruction, con *Cont
 			}
 		}
 		x.bindResults(names, sig, res)
+		x.aliasRenamed(con, sig, names)
 		env2 := &SpecEnv{x: x, fr: fr, st: st, old: snap, names: names, pkg: con.Pkg, depth: 1}
 		for _, en := range con.Ensures {
 			if f, ok := env2.evalCallerSide(en); ok {
@@ -608,20 +713,183 @@ func (x *Exec) applyContract(fr *Frame, st *State, in ssa.Instruction, con *Cont
 // ---------- verifying one function against its contract ----------
 
 type FuncResult struct {
-	Key    string
-	Where  string
-	Instrs int
-	Paths  int
-	Obs    []*Oblig
-	OOS    string // out-of-subset reason ("" if fine)
-	Notes  []string
-	Side   struct{ Asked, Proved int }
-	NoWrap map[string]bool
-	decls  *Decls
-	x      *Exec
+	Key        string
+	Where      string
+	Instrs     int
+	Paths      int
+	Obs        []*Oblig
+	OOS        string // out-of-subset reason ("" if fine)
+	rebindable string // OOS is an unknown local name inside a loop invariant
+	Notes      []string
+	Side       struct{ Asked, Proved int }
+	NoWrap     map[string]bool
+	decls      *Decls
+	x          *Exec
 }
 
+// verifyFunc generates the obligations of one function.  Loop invariants name local variables of the code; when such a name no
+// longer exists (a harmless rename of a local), the invariant is tried with each local of the function that the contract does
+// not mention in its place.  This is sound: an invariant is proved (established, preserved) before it is used, whatever it says;
+// preconditions, postconditions and assert clauses -- which carry meaning -- are never re-bound.
 func (eng *Engine) verifyFunc(key string, con *Contract, bound int) (res *FuncResult) {
+	eng.rebind = nil
+	res = eng.verifyFunc0(key, con, bound)
+	if res.rebindable != "" {
+		if r, rb := eng.searchRebind(key, con, bound, res, map[string]string{}, 0); r != nil {
+			for from, to := range rb {
+				r.Notes = append(r.Notes, fmt.Sprintf("loop invariant of %s: the name %q is not a local of the code any more; proved with local %q in its place (renamed local)", key, from, to))
+			}
+			sort.Strings(r.Notes)
+			res = r
+		}
+	}
+	eng.rebind = nil
+	return res
+}
+
+// searchRebind: depth-first search for an assignment of the invariant names that no longer exist to locals the contract does not
+// mention; r is the result under the assignment rb (with an unknown name left).  Returns a result without unknown names, chosen
+// by proof when several assignments are well-typed.
+func (eng *Engine) searchRebind(key string, con *Contract, bound int, r *FuncResult, rb map[string]string, depth int) (*FuncResult, map[string]string) {
+	if depth >= 4 {
+		return nil, nil
+	}
+	name := r.rebindable
+	// only names that no precondition, postcondition, frame or assert clause uses: those clauses carry meaning
+	if con.freeIdents(true)[name] {
+		return nil, nil
+	}
+	for _, cs := range con.AssertAt {
+		for _, cl := range cs {
+			found := false
+			ast.Inspect(cl.Expr, func(n ast.Node) bool {
+				if id, ok := n.(*ast.Ident); ok && id.Name == name {
+					found = true
+				}
+				return !found
+			})
+			if found {
+				return nil, nil
+			}
+		}
+	}
+	type cand struct {
+		r  *FuncResult
+		rb map[string]string
+	}
+	var good []cand
+	eng.rebind = rb
+	cands := eng.rebindCandidates(key, con, name)
+	if os.Getenv("GOVC_DEBUG_REBIND") != "" {
+		fmt.Fprintf(os.Stderr, "rebind %s: missing %q under %v: candidates %v\n", key, name, rb, cands)
+	}
+	for _, c := range cands {
+		rb2 := map[string]string{}
+		for k, v := range rb {
+			rb2[k] = v
+		}
+		rb2[name] = c
+		eng.rebind = rb2
+		r2 := eng.verifyFunc0(key, con, bound)
+		if os.Getenv("GOVC_DEBUG_REBIND") != "" {
+			fmt.Fprintf(os.Stderr, "  try %v: oos=%q rebindable=%q\n", rb2, r2.OOS, r2.rebindable)
+		}
+		if r2.OOS == "" {
+			good = append(good, cand{r2, rb2})
+		} else if r2.rebindable != "" && r2.rebindable != name {
+			if _, again := rb2[r2.rebindable]; !again {
+				if r3, rb3 := eng.searchRebind(key, con, bound, r2, rb2, depth+1); r3 != nil {
+					good = append(good, cand{r3, rb3})
+				}
+			}
+		}
+		if len(good) > 6 {
+			break
+		}
+	}
+	eng.rebind = rb
+	if len(good) == 1 {
+		return good[0].r, good[0].rb
+	}
+	for _, g := range good {
+		// several locals fit by type: the proof decides
+		if g.r.Obs != nil && g.r.Obs[0].Res.Status == "" {
+			g.r.discharge(timeoutFor("quick"), workers())
+		}
+		if g.r.allDischarged() {
+			return g.r, g.rb
+		}
+	}
+	return nil, nil
+}
+
+// rebindCandidates: named locals of the function (debug names of SSA values) that the contract text does not mention
+func (eng *Engine) rebindCandidates(key string, con *Contract, missing string) []string {
+	fn := eng.findFunc(key)
+	if fn == nil {
+		return nil
+	}
+	seen := map[string]bool{}
+	var out []string
+	add := func(n string) {
+		if n == "" || seen[n] || n == missing || strings.ContainsAny(n, " .$#") {
+			return
+		}
+		seen[n] = true
+		if con.mentions(n) {
+			return
+		}
+		for _, v := range eng.rebind {
+			if v == n {
+				return
+			}
+		}
+		out = append(out, n)
+	}
+	// loop-carried values first (what invariants usually speak about)
+	for _, b := range fn.Blocks {
+		for _, in := range b.Instrs {
+			if ph, ok := in.(*ssa.Phi); ok {
+				add(ph.Comment)
+			}
+		}
+	}
+	for _, b := range fn.Blocks {
+		for _, in := range b.Instrs {
+			switch v := in.(type) {
+			case *ssa.DebugRef:
+				if id, ok := v.Expr.(*ast.Ident); ok {
+					if tv, isVar := v.Object().(*types.Var); isVar && !tv.IsField() {
+						add(id.Name)
+					}
+				}
+			}
+		}
+	}
+	return out
+}
+
+// allDischarged: every obligation proved, every vacuity guard alive
+func (r *FuncResult) allDischarged() bool {
+	alive := map[string]bool{}
+	for _, o := range r.Obs {
+		if (o.Cover || o.Canary) && o.Res.Status != "unsat" {
+			alive[o.Name] = true
+		}
+	}
+	for _, o := range r.Obs {
+		if o.Cover || o.Canary {
+			if !alive[o.Name] {
+				return false
+			}
+		} else if o.Res.Status != "unsat" {
+			return false
+		}
+	}
+	return true
+}
+
+func (eng *Engine) verifyFunc0(key string, con *Contract, bound int) (res *FuncResult) {
 	fn := eng.findFunc(key)
 	res = &FuncResult{Key: key, Where: con.Where}
 	if fn == nil || fn.Blocks == nil {
@@ -647,8 +915,10 @@ func (eng *Engine) verifyFunc(key string, con *Contract, bound int) (res *FuncRe
 			switch err := e.(type) {
 			case oosErr:
 				res.OOS = err.msg
+				res.rebindable = err.rebindable
 			case specErr:
 				res.OOS = "spec error: " + err.msg
+				res.rebindable = err.rebindable
 			default:
 				panic(e)
 			}
@@ -683,6 +953,7 @@ func (x *Exec) run() {
 		fr.names[p.Name()] = v
 		x.recordModelTerm(p.Name(), v)
 	}
+	x.aliasRenamed(con, fn.Signature, fr.names)
 	if len(fn.FreeVars) > 0 {
 		panic(oos("function with free variables cannot carry a contract"))
 	}
@@ -750,6 +1021,7 @@ func (x *Exec) atReturn(fr *Frame, st *State, rs []Val) {
 	}
 	names := map[string]Val{}
 	x.bindResults(names, sig, res)
+	x.aliasRenamed(con, sig, names)
 	ret := lastReturn(fr.fn)
 	x.withSpecErr(con.Where, func() {
 		env := x.specEnvAt(fr, st, fr.pre, names)
